@@ -31,6 +31,10 @@ subclassed — not copied, not edited.  Semantics added: `lean/RbV/Basic/RsSemGe
   `Err(e)`, `Some(x)`, `None`; `opt.map(|s| s.to_owned())`, `unwrap`, `unwrap_or_default`, `x == None`.
 * abstract operations with **`&mut` arguments** (`self.reader.read_line(&mut self.line)`).
 * static sibling functions (`Record::new()`), sibling methods returning values (`self.id()`).
+* **private helper methods found in the source** (`auto_spec`): `self.<name>(…)` that is neither a sibling of the spec nor an
+  abstract operation is looked up as `fn <name>(&mut self, …)` in the file (exactly one match), its spec is derived from the
+  caller's (fields, operations, ghosts, `self` outputs; parameters / return type from the header; `&mut` parameters are
+  outputs) and it is translated on the fly into `<camelCase name>` in front of the caller.
 
 `python3 tools/rs2lean_genfx.py --selftest [--lean]` translates a synthetic reader/writer pair and checks refusals.
 """
@@ -361,12 +365,93 @@ class FxFn(IoFn):
                 return f
         return None
 
+    def sibling_or_auto(self, name, rp, env):
+        sib = self.sibling(name, rp=rp, env=env)
+        if sib is None and rp == "self" and not getattr(self, "_no_sib", False) and self.op_for_method(name) is None:
+            sib = self.auto_spec(name)
+        return sib
+
     def op_for_method(self, name):
         for o in self.fn_ops:
             d = self.ops.get(o)
             if d and d.get("method") == name:
                 return o, d
         return None
+
+    # ---------------------------------------------------------------- private helper methods found in the source
+    def auto_spec(self, name):
+        """`self.<name>(…)` where `<name>` is no sibling of the spec: a private helper method `fn <name>(&mut self, …)` that
+        occurs exactly once in the file is translated on the fly.  Its spec is derived: the `self` fields, abstract
+        operations, ghosts and `self` outputs of the caller; parameters and return type from its header; `&mut`
+        parameters are outputs.  (A refactoring that moves statements into a helper then still translates.)"""
+        if not self.unit.get("auto_helpers", True) or self.spec.get("auto"):
+            return None
+        reg = self.unit.setdefault("_auto", {})
+        if name in reg:
+            return reg[name]
+        rx = r"(?<![\w])fn\s+%s\s*\(\s*&\s*(?:mut\s+)?self\s*(?:,(?P<ps>[^)]*))?\)\s*(?:->\s*(?P<ret>[^{;]+?))?\s*\{" % re.escape(name)
+        code = getattr(self.unit.get("_src_all"), "code", None) or self.src.code
+        ms = list(re.finditer(rx, code))
+        if len(ms) != 1:
+            reg[name] = None
+            return None
+        m = ms[0]
+        params = []
+        depth, cur = 0, ""
+        for ch in (m.group("ps") or ""):
+            if ch in "<([":
+                depth += 1
+            elif ch in ">)]":
+                depth -= 1
+            if ch == "," and depth == 0:
+                params.append(cur)
+                cur = ""
+            else:
+                cur += ch
+        params.append(cur)
+        plist = []
+        for ptxt in params:
+            ptxt = ptxt.strip()
+            if not ptxt:
+                continue
+            pn, _, pt = ptxt.partition(":")
+            pn = pn.replace("mut ", "").strip()
+            plist.append((pn, " ".join(pt.split())))
+        lean = "".join(w.capitalize() if i else w for i, w in enumerate(name.split("_")))
+        spec = dict(name="<helper>::" + name, lean=lean, header=" ".join(m.group(0)[:-1].split()),
+                    self_fields=list(self.spec.get("self_fields", [])), params=plist,
+                    ret=(" ".join(m.group("ret").split()) if m.group("ret") else None),
+                    outs=[o for o in self.spec.get("outs", []) if o.startswith("self.")]
+                         + [pn for pn, pt in plist if pt.replace(" ", "").startswith("&mut")],
+                    ops=list(self.fn_ops), ghosts=list(self.ghosts), fuel=self.spec.get("fuel") or [],
+                    siblings=list(self.spec.get("siblings", [])), locals=dict(self.spec.get("locals", {})),
+                    auto=True, _match=m, _emitted=False)
+        reg[name] = spec
+        return spec
+
+    def auto_emit(self, spec, node):
+        if spec["_emitted"]:
+            return
+        spec["_emitted"] = True
+        m = spec["_match"]
+        src = self.unit.get("_src_all") or self.src
+        start = m.end()
+        depth, i = 1, start
+        code = src.code
+        while i < len(code) and depth:
+            if code[i] == "{":
+                depth += 1
+            elif code[i] == "}":
+                depth -= 1
+            i += 1
+        body = code[start:i - 1]
+        tr = FxFn(self.unit, spec, src, body, start)
+        helpers, main, _, _ = tr.translate(tokenize(body, start))
+        for h in helpers:
+            self.helpers.append(h)
+        self.helpers.append("/-- private helper `%s` (found in the source, line %d) -/\n%s"
+                            % (spec["header"].replace("-/", "- /"), src.line_of(m.start()), main))
+        self.unit.setdefault("_auto_snippets", {})[spec["name"]] = m.group(0) + body + "}"
 
     def assigned(self, node, env):
         self._no_sib = True
@@ -394,7 +479,7 @@ class FxFn(IoFn):
                             if k:
                                 out.add(k)
                 rp = self.path_of(x.recv)
-                sib = self.sibling(x.name, rp=rp, env=env)
+                sib = self.sibling_or_auto(x.name, rp, env)
                 if sib is not None and rp is not None:
                     for kk in self.sib_out_keys(sib, rp, x.args, env, None):
                         out.add(kk)
@@ -421,7 +506,7 @@ class FxFn(IoFn):
                         out.add(x.name + "." + fld)
             elif x.kind == "mcall":
                 rp = self.path_of(x.recv)
-                sib = self.sibling(x.name, rp=rp, env=env)
+                sib = self.sibling_or_auto(x.name, rp, env)
                 if sib is not None and rp is not None:
                     for nm, _ in sib.get("self_fields", []):
                         if rp + "." + nm in env:
@@ -587,8 +672,10 @@ class FxFn(IoFn):
     def mcall(self, e, env, k, want):
         nm = e.name
         rp = self.path_of(e.recv)
-        sib = self.sibling(nm, rp=rp, env=env)
+        sib = self.sibling_or_auto(nm, rp, env)
         if sib is not None and rp is not None:
+            if sib.get("auto"):
+                self.auto_emit(sib, e)
             return self.sibling_call(e, sib, rp, env, k)
         opm = self.op_for_method(nm)
         if opm is not None:
@@ -1226,6 +1313,7 @@ def _translate_unit(src, unit, fail):
     rel = unit["file"]
     out_fns, snippets = [], {}
     src_all = src
+    unit["_auto"], unit["_auto_snippets"], unit["_src_all"] = {}, {}, src
     for pin in unit.get("pinned", []):
         n = len(re.findall(pin_regex(pin), src_all.code))
         if n != 1:
@@ -1306,6 +1394,9 @@ def _translate_unit(src, unit, fail):
         txt.append(main)
         txt.append("")
     txt.append("end RbV.Gen.%s" % name)
+    snippets.update(unit.get("_auto_snippets", {}))
+    for kk in ("_auto", "_auto_snippets", "_src_all"):
+        unit.pop(kk, None)
     return "\n".join(txt) + "\n", snippets
 
 
@@ -1477,8 +1568,7 @@ impl Wr {
         match width {
             Some(w) if w > 0 => {
                 for line in body.chunks(w) {
-                    self.writer.write_all(line)?;
-                    self.writer.write_all(b"\n")?;
+                    self.put_line(line)?;
                 }
                 Ok(())
             }
@@ -1487,6 +1577,12 @@ impl Wr {
                 Ok(())
             }),
         }
+    }
+
+    // a private helper that is not in the translation spec: found in the source and translated on the fly
+    fn put_line(&mut self, line: &[u8]) -> io::Result<()> {
+        self.writer.write_all(line)?;
+        self.writer.write_all(b"\n")
     }
 }
 """
@@ -1578,7 +1674,7 @@ def selftest(with_lean):
     text2, _ = translate_unit(_Src(SELFTEST_RS, "src/selftest.rs"), SELFTEST_UNIT, fail)
     if text1 != text2:
         raise SystemExit("selftest: translation is not deterministic")
-    for need in ("read_loop1", "read_for1", "read_pat1", "put_for1", "put_each1", "Rs.strFrom", "Rs.chunks", "Rs.add 31"):
+    for need in ("read_loop1", "read_for1", "read_pat1", "put_for1", "put_each1", "Rs.strFrom", "Rs.chunks", "Rs.add 31", "def putLine"):
         if need not in text1:
             raise SystemExit("selftest: expected `%s` in the translation" % need)
     n_ref = 0
